@@ -471,7 +471,10 @@ fn main() {
                 handle(&ctx, idx, &mut rep, &mut acc, Job::Real(sc), d, class)
             } else {
                 let mut sc = gen_scenario_t(&mut rng, ctx.miri, long, ctx.tier_thorough);
-                shape_mock(&prop, &mut rng, idx, &mut sc);
+                // index among the mock scenarios (every third scenario uses a real reader), so that
+                // the systematic cycling in shape_mock visits every residue
+                let mock_idx = idx - idx / 3;
+                shape_mock(&prop, &mut rng, mock_idx, &mut sc);
                 let class = sc.class();
                 let d = sc.describe();
                 handle(&ctx, idx, &mut rep, &mut acc, Job::Mock(sc), d, class)
